@@ -222,6 +222,55 @@ def env2(ctx):
     return r
 
 
+def _atom_name(e):
+    e = hirq.strip(e)
+    k = e.get("e")
+    if k == "path":
+        return e.get("local") or e.get("path") or "?"
+    if k == "mcall":
+        return "%s.%s(%s)" % (_atom_name(e["recv"]), e["name"], ",".join(_atom_name(a) for a in e.get("args", [])))
+    if k == "field":
+        return "%s.%s" % (_atom_name(e["a"]), e["name"])
+    if k == "unary":
+        return "%s(%s)" % (e.get("op"), _atom_name(e["a"]))
+    if k == "lit":
+        return repr(e.get("lit"))
+    return k or "?"
+
+
+def _truth_table(e):
+    """a boolean expression as the table of its values over all assignments of its atoms"""
+    import itertools
+    atoms = []
+
+    def ev(x, env):
+        x = hirq.strip(x)
+        k = x.get("e")
+        if k == "lit" and x.get("lk") == "bool":
+            return bool(x["lit"])
+        if k == "unary" and x.get("op") == "Not":
+            return not ev(x["a"], env)
+        if k == "binary" and x.get("op") in ("And", "Or"):
+            a_, b_ = ev(x["a"], env), ev(x["b"], env)
+            return (a_ and b_) if x["op"] == "And" else (a_ or b_)
+        if k == "if" and x.get("else") is not None and hirq.strip(x["cond"]).get("e") != "letcond":
+            return ev(x["then"], env) if ev(x["cond"], env) else ev(x["else"], env)
+        nm = _atom_name(x)
+        if nm not in atoms:
+            atoms.append(nm)
+        return env.get(nm, False)
+    ev(e, {})                      # collect the atoms
+    ev_atoms = sorted(atoms)
+    for _ in range(3):             # atoms met only on some branches
+        for vals in itertools.product((False, True), repeat=len(ev_atoms)):
+            ev(e, dict(zip(ev_atoms, vals)))
+        ev_atoms = sorted(atoms)
+    table = []
+    for vals in itertools.product((False, True), repeat=len(ev_atoms)):
+        table.append((list(vals), ev(e, dict(zip(ev_atoms, vals)))))
+    return {"atoms": ev_atoms, "table": table}
+
+
 def env3(ctx):
     """match_before_env and match_after_env are the same state loop run in two directions"""
     import json
@@ -239,7 +288,8 @@ def env3(ctx):
             raise AnchorMissing("%s: expected one state loop and one `is_match` initialisation (%d, %d)" % (fn, len(loops), len(inits)))
         c = Canon()
         # names are numbered in order of first use inside the compared fragments, so `word_rev` / `word` do not matter
-        s_init = json.dumps(c.expr(inits[0]["init"]), sort_keys=True, default=str)
+        # the initial verdict is compared as a boolean function of its atoms (`if c { true } else { x }` == `c || x`)
+        s_init = json.dumps(_truth_table(inits[0]["init"]), sort_keys=True, default=str)
         s_loop = json.dumps(c.expr(loops[0]), sort_keys=True, default=str)
         skel[fn] = (s_init, s_loop)
         pol[fn] = list(c.pol)
